@@ -89,8 +89,11 @@ def impl_run(s, law=None, passes=2):
             v = c[k].iloc[i]
             r[k] = v.item() if hasattr(v, 'item') else v
         rows.append(r)
-    return rows, [float(x) for x in d.strain_values], int(len(d.strain_values_first_run)), \
-        [float(p.load_representative) for p in d._residuals]
+    try:      # private state, compared only when it is there (a refactoring may rename it): open residual loads
+        resid = [float(p.load_representative) for p in d._residuals]
+    except Exception:
+        resid = None
+    return rows, [float(x) for x in d.strain_values], int(len(d.strain_values_first_run)), resid
 
 
 def impl_run_multi(s, ratios, law=None):
@@ -351,6 +354,8 @@ def make_in_class(rng, s):
 
 # --------------------------------------------------------------------------- correspondence terms
 def c04_term(s, rows, residuals, passes=2):
+    if residuals is None:
+        return 'load_recs_eqb (load_obs %s %s) %s' % (nlit(passes - 1), coq_list(s), load_obs_lit(rows))
     return 'load_obs_eqb (load_obs %s %s) %s %s' % (nlit(passes - 1), coq_list(s), load_obs_lit(rows), coq_list([int(x) for x in residuals]))
 
 
